@@ -225,11 +225,11 @@ def explore(ck, n, atm, np, xrun=True):
     if abs(g / gamma_d - 1) > 1e-6:
         ck.violation("other", f"lapse rate does not approach g/cp for vanishing saturation mixing ratio: {g!r}", {"fn": "moist_lapse_rate", "args": [float(water_ld(T)) * 1e9, T]})
     if xrun:
-        numlib.float_cross(ck, calls)
+        numlib.float_cross(ck, calls, exe="drv_atm")
 
 
 def main():
-    ck = vlib.Check(PROP, pkg="numeric", props="Proofs.Props.C09", driver="drv_num",
+    ck = vlib.Check(PROP, pkg="numeric", props="Proofs.Props.C09", driver="drv_atm",
                     lemma_files=["Proofs/Lemmas/Consts.lean"],
                     model_files=["GenReal/Atmosphere.lean", "GenReal/Constants.lean"],
                     trusted=["tools/py2lean (translator): the emitted Lean term is the exact real-number reading of the Python expression; validated each run by compiling the Float reading of the same AST and comparing it with numpy on generated points (1e-9 relative on well-conditioned points)",
@@ -245,7 +245,7 @@ def main():
     from typhon.physics import atmosphere as atm
     xrun = True
     try:
-        ck.driver(["planck 0 0"], exe="drv_num")
+        ck.driver(["planck 0 0"], exe="drv_atm")
     except vlib.InfraError:
         xrun = False
         ck.notes.append("Float driver not available (build broken): cross-run skipped")
